@@ -14,6 +14,11 @@
 //!     `--entry loop`: the real `block_production_loop` runs (`wait_for_first_slot` decides between
 //!     the two variants from the real pool / blockstore contents) and ParentReady is produced by the
 //!     real pool from real certificates.
+//! Window model: the loop entry produces all `W` blocks of the window (and the leader's next window where the model
+//! says so); `start` establishes the situation `wait_for_first_slot` finds (ParentReady from real certificates, a
+//! real block of the previous slot, a real fast-finalization certificate for a later slot with or without the
+//! parent chain known = with or without pruning) BEFORE the loop starts.  `loss` of a step makes the recording
+//! Disseminator fail for every second / every shred handed to it during that step.
 //! One model tick = `TICK` of virtual time (`tokio::time::sleep`); nothing depends on wall-clock time:
 //! the code's `std::time::Instant` measurements are ~0 and far below one tick (see Producer.tla, Frozen).
 //! After every step the producer task runs until it is idle.  Panics of the task are data.
@@ -25,9 +30,11 @@ use std::sync::{Arc, Mutex};
 use std::time::Duration;
 
 use alpenglow::consensus::{
-    Blockstore, BlockstoreEvent, BlockstoreImpl, Cert, NotarCert, NotarVote, Pool, PoolEvent,
-    PoolImpl, SharedBlockstore, SharedPool, SkipCert, SkipVote, ValidatedCert, VerifBlockProducer,
+    Blockstore, BlockstoreEvent, BlockstoreImpl, Cert, FastFinalCert, NotarCert, NotarVote, Pool,
+    PoolEvent, PoolImpl, SharedBlockstore, SharedPool, SkipCert, SkipVote, ValidatedCert,
+    VerifBlockProducer,
 };
+use alpenglow::crypto::merkle::BlockHash;
 use alpenglow::network::Network;
 use alpenglow::shredder::{RegularShredder, Shred, Shredder, TOTAL_SHREDS, ValidatedShred};
 use alpenglow::types::{Slice, SliceIndex, Slot};
@@ -42,9 +49,21 @@ use crate::graph::{self, Driver};
 use crate::world::{World, hash_bytes};
 
 /// one model tick of virtual time; far above any wall-clock duration a walk can take
-const TICK: Duration = Duration::from_secs(100_000);
-/// slot of the block under production: first slot of window 1
+const TICK: Duration = Duration::from_secs(1000);
+/// first slot of the window under production (window 1) and of the leader's next window (window 4)
 const SLOT: u64 = 4;
+const NEXT_SLOT: u64 = 16;
+const WINDOW: u64 = 4;
+
+fn window_of(slot: u64) -> Option<(&'static str, u64)> {
+    if (SLOT..SLOT + WINDOW).contains(&slot) {
+        Some(("w1", slot - SLOT))
+    } else if (NEXT_SLOT..NEXT_SLOT + WINDOW).contains(&slot) {
+        Some(("w4", slot - NEXT_SLOT))
+    } else {
+        None
+    }
+}
 
 // ---------------------------------------------------------------- environment of the producer
 struct TxNet {
@@ -82,15 +101,29 @@ impl Network for TxNet {
 
 #[derive(Default)]
 struct RecDissem {
-    shreds: Mutex<Vec<Shred>>,
+    /// every shred handed to `send`, with the result returned
+    shreds: Mutex<Vec<(Shred, bool)>>,
     total: AtomicUsize,
+    /// 0: every send succeeds, 1: every second one fails, 2: all fail
+    loss: AtomicUsize,
+    failed: AtomicUsize,
 }
 
 impl Disseminator for RecDissem {
     async fn send(&self, shred: &Shred) -> std::io::Result<()> {
-        self.shreds.lock().unwrap().push(shred.clone());
-        self.total.fetch_add(1, Ordering::SeqCst);
-        Ok(())
+        let n = self.total.fetch_add(1, Ordering::SeqCst);
+        let fail = match self.loss.load(Ordering::SeqCst) {
+            0 => false,
+            1 => n % 2 == 1,
+            _ => true,
+        };
+        self.shreds.lock().unwrap().push((shred.clone(), !fail));
+        if fail {
+            self.failed.fetch_add(1, Ordering::SeqCst);
+            Err(std::io::Error::other("verif: send failed"))
+        } else {
+            Ok(())
+        }
     }
 
     async fn forward(&self, _shred: &Shred) -> std::io::Result<()> {
@@ -103,24 +136,28 @@ impl Disseminator for RecDissem {
 }
 
 struct Run {
-    variant: String,
     tx: mpsc::UnboundedSender<Transaction>,
     pending: Arc<AtomicUsize>,
     dissem: Arc<RecDissem>,
-    blockstore: SharedBlockstore,
+    store: Arc<RwLock<BlockstoreImpl>>,
     pool: SharedPool,
     pr_tx: Option<oneshot::Sender<BlockId>>,
     handle: Option<JoinHandle<anyhow::Result<Option<BlockId>>>>,
     /// shreds taken from the recorder and not yet turned into a slice
-    backlog: Vec<Shred>,
+    backlog: Vec<(Shred, bool)>,
     /// accepted (per the model) transactions not yet seen in a slice, in sending order
     expected_txs: VecDeque<Vec<u8>>,
-    /// all transactions seen in slices so far
+    /// transactions seen in the slices of the block in production
     in_slices: Vec<Vec<u8>>,
-    shipped: Vec<Value>,
+    /// slices of the block in production
+    cur: Vec<Value>,
+    /// position (window, k) of the block in production, known from its first slice
+    cur_pos: Option<(String, u64)>,
+    /// completed blocks: (window, k, parent name, id)
+    blocks_done: Vec<(String, u64, String, BlockId)>,
+    /// windows for which any slice was ever seen
+    windows_seen: Vec<String>,
     returned: Option<BlockId>,
-    done: bool,
-    eff: String,
     panicked: bool,
     seq: u64,
     names: HashMap<Vec<u8>, String>,
@@ -138,12 +175,15 @@ pub struct ProducerDriver {
     delta_first: u32,
     run: Option<Run>,
     /// certificates and the previous leader's block are the same in every walk
-    cert_cache: HashMap<(u64, Vec<u8>, bool), ValidatedCert>,
-    prev_block: Option<Vec<ValidatedShred>>,
+    cert_cache: HashMap<(u64, Vec<u8>, u8), ValidatedCert>,
+    prev_block: Option<(Vec<ValidatedShred>, BlockHash)>,
     /// actions of the current walk; expected panics the real task reproduced (shortest walk kept)
     walk: Vec<Value>,
     pub panics_reproduced: u64,
     pub panic_walk: Option<Vec<Value>>,
+    pub failed_sends: u64,
+    pub windows_completed: u64,
+    pub windows_skipped: u64,
 }
 
 fn slice_index(i: usize) -> SliceIndex {
@@ -155,24 +195,30 @@ fn panic_kind(msg: &str) -> String {
         "shred".to_string()
     } else if msg.contains("own block failed reconstruction") {
         "reconstruct".to_string()
+    } else if msg.contains("ParentReady sender should not be dropped") {
+        "sender".to_string()
     } else {
         format!("other: {msg}")
     }
 }
 
 impl ProducerDriver {
-    pub fn new(seed: u64, loop_entry: bool, delta_block: u32, delta_first: u32) -> Self {
-        let rt = tokio::runtime::Builder::new_current_thread()
+    fn new_rt(seed: u64) -> tokio::runtime::Runtime {
+        tokio::runtime::Builder::new_current_thread()
             .enable_all()
             .start_paused(true)
             .rng_seed(tokio::runtime::RngSeed::from_bytes(&seed.to_le_bytes()))
             .build()
-            .expect("runtime");
+            .expect("runtime")
+    }
+
+    pub fn new(seed: u64, loop_entry: bool, delta_block: u32, delta_first: u32) -> Self {
+        let rt = Self::new_rt(seed);
         Self {
             world: World::new(&[1, 1, 1], seed),
             rt,
             seed,
-            own: 1, // leader of window 1 (slots 4..7)
+            own: 1, // leader of window 1 (slots 4..7) and of window 4 (slots 16..19)
             loop_entry,
             delta_block,
             delta_first,
@@ -182,33 +228,29 @@ impl ProducerDriver {
             walk: Vec::new(),
             panics_reproduced: 0,
             panic_walk: None,
+            failed_sends: 0,
+            windows_completed: 0,
+            windows_skipped: 0,
         }
     }
 
-    fn notar_cert(&mut self, b: &BlockId) -> ValidatedCert {
-        let key = (b.0.inner(), hash_bytes(&b.1), true);
+    /// really signed certificate of all validators: kind 0 = notar, 1 = skip, 2 = fast-final
+    fn cert(&mut self, kind: u8, slot: Slot, hash: Option<&BlockHash>) -> ValidatedCert {
+        let key = (slot.inner(), hash.map(hash_bytes).unwrap_or_default(), kind);
         if let Some(c) = self.cert_cache.get(&key) {
             return c.clone();
         }
         let vals = self.world.epoch.validators().to_vec();
-        let votes: Vec<NotarVote> = (0..self.world.n)
-            .map(|v| NotarVote::new(b.0, b.1.clone(), &self.world.voting_sks[v], ValidatorIndex::new(v as u64)))
-            .collect();
-        let c = ValidatedCert::try_new(Cert::Notar(NotarCert::new(&votes, &vals)), &self.world.epoch).expect("harness cert validates");
-        self.cert_cache.insert(key, c.clone());
-        c
-    }
-
-    fn skip_cert(&mut self, slot: Slot) -> ValidatedCert {
-        let key = (slot.inner(), Vec::new(), false);
-        if let Some(c) = self.cert_cache.get(&key) {
-            return c.clone();
-        }
-        let vals = self.world.epoch.validators().to_vec();
-        let votes: Vec<SkipVote> = (0..self.world.n)
-            .map(|v| SkipVote::new(slot, &self.world.voting_sks[v], ValidatorIndex::new(v as u64)))
-            .collect();
-        let c = ValidatedCert::try_new(Cert::Skip(SkipCert::new(&votes, &[], &vals)), &self.world.epoch).expect("harness cert validates");
+        let idx = |v: usize| ValidatorIndex::new(v as u64);
+        let cert = if kind == 1 {
+            let votes: Vec<SkipVote> = (0..self.world.n).map(|v| SkipVote::new(slot, &self.world.voting_sks[v], idx(v))).collect();
+            Cert::Skip(SkipCert::new(&votes, &[], &vals))
+        } else {
+            let h = hash.expect("block hash").clone();
+            let votes: Vec<NotarVote> = (0..self.world.n).map(|v| NotarVote::new(slot, h.clone(), &self.world.voting_sks[v], idx(v))).collect();
+            if kind == 0 { Cert::Notar(NotarCert::new(&votes, &vals)) } else { Cert::FastFinal(FastFinalCert::new(&votes, &vals)) }
+        };
+        let c = ValidatedCert::try_new(cert, &self.world.epoch).expect("harness cert validates");
         self.cert_cache.insert(key, c.clone());
         c
     }
@@ -232,8 +274,17 @@ impl ProducerDriver {
         v
     }
 
-    fn start(&mut self, variant: &str) -> Result<(), String> {
+    /// establishes situation `c` (codes of Producer!OnStart) in a fresh pool / blockstore and starts the producer
+    fn start(&mut self, c: &str) -> Result<(), String> {
         let _ = alpenglow::verif::drain();
+        let (has_pr, has_blk) = (matches!(c, "pr" | "pr+fin" | "pr+finP"), matches!(c, "blk" | "blk+fin" | "blk+finP"));
+        let (has_fin, pruned) = (c.contains("fin"), c.ends_with("finP"));
+        if !has_pr && !has_blk && !has_fin {
+            return Err(format!("harness: unknown start situation {c}"));
+        }
+        if !self.loop_entry && has_fin {
+            return Err("harness: the direct entry has no wait_for_first_slot".into());
+        }
         let own = self.own;
         let vepoch = self.world.validator_epoch(own);
         let (etx, erx) = mpsc::channel(1 << 16);
@@ -242,53 +293,76 @@ impl ProducerDriver {
         let (rtx, rrx) = mpsc::channel(1 << 16);
         let mut pool_impl = PoolImpl::new(vepoch.clone(), ptx, rtx);
 
-        // the blocks ParentReady may name
+        // the blocks the model names
         let mut blocks: HashMap<String, BlockId> = HashMap::new();
         let prev = Slot::new(SLOT - 1);
+        let b2: BlockId = (Slot::new(SLOT - 2), self.world.hash("C"));
         let mut a_id: BlockId = (prev, self.world.hash("A"));
         blocks.insert("B".into(), (prev, self.world.hash("B")));
-        blocks.insert("C".into(), (Slot::new(SLOT - 2), self.world.hash("C")));
-        if self.loop_entry && variant == "notready" {
-            // wait_for_first_slot: the blockstore holds a disseminated block for the previous slot
+        blocks.insert("C".into(), b2.clone());
+        let f_id: BlockId = (Slot::new(NEXT_SLOT - 1), self.world.hash("F"));
+        blocks.insert("F".into(), f_id.clone());
+        if self.loop_entry && has_blk {
+            // the blockstore holds a disseminated block for the previous slot
             if self.prev_block.is_none() {
                 let slice = Slice {
                     slot: prev,
                     slice_index: slice_index(0),
                     is_last: true,
-                    parent: Some((Slot::new(SLOT - 2), self.world.hash("P"))),
+                    parent: Some(b2.clone()),
                     data: 0u64.to_le_bytes().to_vec(),
                 };
                 let shreds = RegularShredder::default().shred(&slice, &self.world.sks[0]).map_err(|e| format!("harness: {e:?}"))?;
-                self.prev_block = Some(shreds.to_vec());
-            }
-            let shreds = self.prev_block.clone().unwrap();
-            let mut info = None;
-            for s in shreds {
-                match futures::executor::block_on(store.add_shred_from_dissemination(s)) {
-                    Ok(Some(bi)) => info = Some(bi),
-                    Ok(None) => {}
-                    Err(e) => {
-                        if info.is_none() {
-                            return Err(format!("harness: previous block refused: {e:?}"));
-                        }
+                let (ttx, _trx) = mpsc::channel(256);
+                let mut tmp = BlockstoreImpl::new(ttx);
+                let mut h = None;
+                for s in shreds.iter().cloned() {
+                    if let Ok(Some(bi)) = futures::executor::block_on(tmp.add_shred_from_dissemination(s)) {
+                        h = Some(bi.verif_hash().clone());
                     }
                 }
+                self.prev_block = Some((shreds.to_vec(), h.ok_or("harness: previous block did not reconstruct")?));
             }
-            let info = info.ok_or("harness: previous block did not reconstruct")?;
-            a_id = (prev, info.verif_hash().clone());
+            let (shreds, h) = self.prev_block.clone().unwrap();
+            for s in shreds {
+                let _ = futures::executor::block_on(store.add_shred_from_dissemination(s));
+            }
+            a_id = (prev, h);
         }
         blocks.insert("A".into(), a_id.clone());
-        if self.loop_entry && variant == "ready" {
-            // wait_for_first_slot: the pool already emitted ParentReady(4, A)
-            let cert = self.notar_cert(&a_id);
+        if self.loop_entry && has_pr {
+            // the pool emitted ParentReady(4, A)
+            let cert = self.cert(0, a_id.0, Some(&a_id.1));
             futures::executor::block_on(pool_impl.add_cert(cert)).map_err(|e| format!("harness: {e:?}"))?;
         }
+        if has_fin {
+            // a slot beyond the window is finalized; with the parent chain known the pool prunes the window
+            let ff = self.cert(2, f_id.0, Some(&f_id.1));
+            let b1: BlockId = (Slot::new(1), self.world.hash("b1"));
+            let g: BlockId = (Slot::genesis(), alpenglow::crypto::merkle::GENESIS_BLOCK_HASH);
+            let (a2, bb2, f2) = (a_id.clone(), b2.clone(), f_id.clone());
+            futures::executor::block_on(async {
+                if pruned {
+                    for (b, p) in [(b1.clone(), g), (bb2.clone(), b1), (a2.clone(), bb2), (f2, a2)] {
+                        pool_impl.add_block(b, p).await;
+                    }
+                }
+                pool_impl.add_cert(ff).await
+            })
+            .map_err(|e| format!("harness: {e:?}"))?;
+            let root = pool_impl.verif_first_unpruned_slot().inner();
+            if pruned != (root > SLOT) {
+                return Err(format!("harness: pruning watermark {root} does not fit situation {c}"));
+            }
+        }
+        let _ = alpenglow::verif::drain(); // registrations made by the set-up itself
         let mut names = HashMap::new();
         for (n, b) in &blocks {
             names.insert(hash_bytes(&b.1), n.clone());
         }
 
-        let blockstore: SharedBlockstore = Arc::new(RwLock::new(store));
+        let store = Arc::new(RwLock::new(store));
+        let blockstore: SharedBlockstore = store.clone();
         let pool: SharedPool = Arc::new(RwLock::new(pool_impl));
         let (tx, rx) = mpsc::unbounded_channel();
         let pending = Arc::new(AtomicUsize::new(0));
@@ -299,7 +373,7 @@ impl ProducerDriver {
             vepoch,
             dissem.clone(),
             net,
-            blockstore.clone(),
+            blockstore,
             pool.clone(),
             CancellationToken::new(),
             TICK * self.delta_block,
@@ -309,7 +383,7 @@ impl ProducerDriver {
         let mut pr_tx = None;
         let handle = if self.loop_entry {
             self.rt.spawn(async move { producer.block_production_loop().await.map(|()| None) })
-        } else if variant == "ready" {
+        } else if has_pr {
             self.rt.spawn(async move { producer.produce_block_parent_ready(slot, a_id).await.map(Some) })
         } else {
             let (s, r) = oneshot::channel();
@@ -317,21 +391,21 @@ impl ProducerDriver {
             self.rt.spawn(async move { producer.produce_block_parent_not_ready(slot, a_id, r).await.map(Some) })
         };
         self.run = Some(Run {
-            variant: variant.to_string(),
             tx,
             pending,
             dissem,
-            blockstore,
+            store,
             pool,
             pr_tx,
             handle: Some(handle),
             backlog: Vec::new(),
             expected_txs: VecDeque::new(),
             in_slices: Vec::new(),
-            shipped: Vec::new(),
+            cur: Vec::new(),
+            cur_pos: None,
+            blocks_done: Vec::new(),
+            windows_seen: Vec::new(),
             returned: None,
-            done: false,
-            eff: String::new(),
             panicked: false,
             seq: 0,
             names,
@@ -365,8 +439,16 @@ impl ProducerDriver {
         (run.dissem.total.load(Ordering::SeqCst), run.handle.as_ref().is_none_or(JoinHandle::is_finished))
     }
 
+    /// name of a parent as the model calls it: one of the named blocks or the block just produced in the window
+    fn parent_name(run: &Run, w: &str, b: &BlockId) -> String {
+        if let Some((_, k, _, _)) = run.blocks_done.iter().find(|(bw, _, _, id)| bw == w && id == b) {
+            return format!("K{k}");
+        }
+        run.names.get(&hash_bytes(&b.1)).filter(|n| run.blocks[*n].0 == b.0).cloned().unwrap_or_else(|| format!("?{}", b.0.inner()))
+    }
+
     /// everything the producer did since the last call, in the shape of the model's step output
-    fn collect(&mut self, model_acc: u64) -> Value {
+    fn collect(&mut self) -> Value {
         let mut chk: Vec<String> = Vec::new();
         self.quiesce();
         // idle means idle: further scheduler rounds change nothing
@@ -380,21 +462,20 @@ impl ProducerDriver {
             chk.push("harness: producer task not idle after the step".into());
         }
         let pk = self.world.sks[self.own].to_pk();
-        let slot = Slot::new(SLOT);
         let mut panic = String::new();
         let mut ship = Vec::new();
-        let mut done_now = false;
+        let (mut out_w, mut out_k) = (String::new(), 0u64);
         let run = self.run.as_mut().expect("run");
-        let _ = model_acc;
 
-        // new slices of the block under production, from the shreds given to the disseminator
+        // new slices, from the shreds handed to the disseminator (64 per slice, in order)
         let fresh = std::mem::take(&mut *run.dissem.shreds.lock().unwrap());
         run.backlog.extend(fresh);
         while run.backlog.len() >= TOTAL_SHREDS {
-            let group: Vec<Shred> = run.backlog.drain(..TOTAL_SHREDS).collect();
+            let group: Vec<(Shred, bool)> = run.backlog.drain(..TOTAL_SHREDS).collect();
+            let sent = group.iter().filter(|(_, ok)| *ok).count();
             let mut arr: [Option<ValidatedShred>; TOTAL_SHREDS] = [const { None }; TOTAL_SHREDS];
             let mut commitment = None;
-            for (i, s) in group.iter().enumerate() {
+            for (i, (s, _)) in group.iter().enumerate() {
                 match ValidatedShred::try_new(s.clone(), commitment.as_ref(), &pk) {
                     Ok(v) => {
                         commitment = Some(v.commitment());
@@ -404,12 +485,22 @@ impl ProducerDriver {
                 }
             }
             match RegularShredder::default().deshred(&mut arr) {
-                Ok(slice) if slice.slot != slot => {} // a later block of the window (loop entry)
                 Ok(slice) => {
+                    let Some((w, k)) = window_of(slice.slot.inner()) else {
+                        chk.push(format!("slice for slot {} outside the modelled windows", slice.slot.inner()));
+                        continue;
+                    };
+                    if !run.windows_seen.iter().any(|x| x == w) {
+                        run.windows_seen.push(w.to_string());
+                    }
+                    match &run.cur_pos {
+                        None => run.cur_pos = Some((w.to_string(), k)),
+                        Some((cw, ck)) if cw == w && *ck == k => {}
+                        Some(_) => chk.push("slice of another block while a block is in production".into()),
+                    }
                     let par = match &slice.parent {
                         None => "none".to_string(),
-                        Some(b) => run.names.get(&hash_bytes(&b.1)).filter(|n| run.blocks[*n].0 == b.0).cloned()
-                            .unwrap_or_else(|| format!("?{}", b.0.inner())),
+                        Some(b) => Self::parent_name(run, w, b),
                     };
                     let size = wincode::serialize(&(slice.parent.clone(), slice.data.clone())).map(|b| b.len()).unwrap_or(0);
                     let txs: Vec<Transaction> = wincode::deserialize(&slice.data).unwrap_or_else(|_| {
@@ -425,9 +516,16 @@ impl ProducerDriver {
                         run.in_slices.push(t.0.clone());
                     }
                     let idx: usize = serde_json::to_value(slice.slice_index).ok().and_then(|v| v.as_u64()).unwrap_or(9999) as usize;
-                    let v = json!({"idx": idx, "last": slice.is_last, "par": par, "size": size, "ntx": txs.len()});
-                    run.shipped.push(v.clone());
+                    // stored locally whatever the disseminator said: all 64 shreds of the slice are in the blockstore
+                    let held = futures::executor::block_on(async { run.store.read().await.verif_held(slice.slot) });
+                    if !held.iter().any(|(i, h)| *i == idx && h.len() == TOTAL_SHREDS) {
+                        chk.push(format!("slice {idx} of slot {} is not completely in the blockstore", slice.slot.inner()));
+                    }
+                    let v = json!({"idx": idx, "last": slice.is_last, "par": par, "size": size, "ntx": txs.len(), "sent": sent});
+                    run.cur.push(v.clone());
                     ship.push(v);
+                    out_w = w.to_string();
+                    out_k = k;
                 }
                 Err(e) => chk.push(format!("slice does not deshred: {e:?}")),
             }
@@ -454,50 +552,66 @@ impl ProducerDriver {
             }
         }
 
-        // completion: Pool::add_block (event log), the blockstore's block, the returned id
-        let mut eff = String::new();
+        // completion of a block: Pool::add_block (event log), the blockstore's block, the returned id
+        let (mut done_now, mut eff) = (false, String::new());
         for ev in alpenglow::verif::drain() {
-            if let VerifEvent::Block { block, parent, .. } = ev
-                && block.0 == slot
-            {
-                if run.done {
-                    chk.push("block registered twice".into());
-                }
-                run.done = true;
-                done_now = true;
-                eff = run.names.get(&hash_bytes(&parent.1)).filter(|n| run.blocks[*n].0 == parent.0).cloned()
-                    .unwrap_or_else(|| format!("?{}", parent.0.inner()));
-                run.eff = eff.clone();
-                let bs = run.blockstore.clone();
-                let got = futures::executor::block_on(async {
-                    let g = bs.read().await;
-                    g.get_block(&block).map(|b| (b.verif_parent(), b.verif_transactions().iter().map(|t| t.0.clone()).collect::<Vec<_>>()))
-                });
-                match got {
-                    Some((p, txs)) => {
-                        if p != parent {
-                            chk.push("blockstore and pool disagree on the parent".into());
-                        }
-                        if txs != run.in_slices {
-                            chk.push("block content differs from the slices".into());
-                        }
-                        if !run.expected_txs.is_empty() {
-                            chk.push("accepted transactions missing from the block".into());
-                        }
+            let VerifEvent::Block { block, parent, node } = ev else { continue };
+            if node.inner() as usize != self.own {
+                continue;
+            }
+            let Some((w, k)) = window_of(block.0.inner()) else {
+                chk.push(format!("block registered for slot {} outside the modelled windows", block.0.inner()));
+                continue;
+            };
+            if done_now {
+                chk.push("two blocks registered in one step".into());
+            }
+            if run.blocks_done.iter().any(|(bw, bk, _, _)| bw == w && *bk == k) {
+                chk.push("block registered twice".into());
+            }
+            if run.cur_pos.as_ref().is_none_or(|(cw, ck)| cw != w || *ck != k) {
+                chk.push("registered block is not the one in production".into());
+            }
+            done_now = true;
+            eff = Self::parent_name(run, w, &parent);
+            out_w = w.to_string();
+            out_k = k;
+            let got = futures::executor::block_on(async {
+                let g = run.store.read().await;
+                g.get_block(&block).map(|b| (b.verif_parent(), b.verif_transactions().iter().map(|t| t.0.clone()).collect::<Vec<_>>()))
+            });
+            match got {
+                Some((p, txs)) => {
+                    if p != parent {
+                        chk.push("blockstore and pool disagree on the parent".into());
                     }
-                    None => chk.push("completed block not in the blockstore".into()),
+                    if txs != run.in_slices {
+                        chk.push("block content differs from the slices".into());
+                    }
+                    if !run.expected_txs.is_empty() {
+                        chk.push("accepted transactions missing from the block".into());
+                    }
                 }
-                if let Some(r) = &run.returned
-                    && *r != block
-                {
-                    chk.push("returned block id differs from the registered one".into());
-                }
+                None => chk.push("completed block not in the blockstore".into()),
+            }
+            if let Some(r) = &run.returned
+                && *r != block
+            {
+                chk.push("returned block id differs from the registered one".into());
+            }
+            run.blocks_done.push((w.to_string(), k, eff.clone(), block));
+            run.cur.clear();
+            run.cur_pos = None;
+            run.in_slices.clear();
+            if k + 1 == WINDOW {
+                self.windows_completed += 1;
             }
         }
-        if !self.loop_entry && run.returned.is_some() != run.done {
+        if !self.loop_entry && run.returned.is_some() != !run.blocks_done.is_empty() {
             chk.push("return of produce_block and registration with the pool disagree".into());
         }
-        json!({"ship": ship, "done": done_now, "eff": eff, "panic": panic, "chk": chk})
+
+        json!({"ship": ship, "done": done_now, "eff": eff, "panic": panic, "w": out_w, "k": out_k, "chk": chk})
     }
 
     fn send_tx(&mut self, len: usize, accepted: bool) {
@@ -511,15 +625,30 @@ impl ProducerDriver {
         run.pending.fetch_add(1, Ordering::SeqCst);
         let _ = run.tx.send(Transaction(bytes));
     }
+
+    fn add_certs(&mut self, certs: Vec<ValidatedCert>) -> Result<(), String> {
+        let pool = self.run.as_ref().unwrap().pool.clone();
+        self.rt.block_on(async {
+            for c in certs {
+                pool.write().await.add_cert(c).await.map_err(|e| format!("harness: {e:?}"))?;
+            }
+            Ok(())
+        })
+    }
 }
 
 impl Driver for ProducerDriver {
     fn reset(&mut self) {
-        if let Some(mut r) = self.run.take()
-            && let Some(h) = r.handle.take()
-        {
-            h.abort();
-            let _ = self.rt.block_on(h);
+        if let Some(mut r) = self.run.take() {
+            self.failed_sends += r.dissem.failed.load(Ordering::SeqCst) as u64;
+            if let Some(h) = r.handle.take() {
+                h.abort();
+                let _ = self.rt.block_on(h);
+            }
+            drop(r);
+            // a fresh runtime per walk: wait_for_first_slot leaves a detached 1 ms poller behind whenever its
+            // other select branch wins; it must not live on (and spin through the ticks of) later walks
+            self.rt = Self::new_rt(self.seed);
         }
         let _ = alpenglow::verif::drain();
         self.walk.clear();
@@ -528,21 +657,28 @@ impl Driver for ProducerDriver {
     fn step(&mut self, act: &Value) -> Value {
         self.walk.push(act.clone());
         let op = act["op"].as_str().unwrap_or("");
-        let err = |m: String| json!({"ship": [], "done": false, "eff": "", "panic": "", "chk": [m]});
-        match op {
-            "start" => {
-                let v = act["v"].as_str().unwrap_or("").to_string();
-                if let Err(e) = self.start(&v) {
-                    return err(e);
-                }
-                self.collect(0)
+        let err = |m: String| json!({"ship": [], "done": false, "eff": "", "panic": "", "w": "", "k": 0, "chk": [m]});
+        if op == "start" {
+            let c = act["c"].as_str().unwrap_or("").to_string();
+            if let Err(e) = self.start(&c) {
+                return err(e);
             }
-            _ if self.run.is_none() => err("harness: step before start".into()),
+            return self.collect();
+        }
+        let Some(run) = self.run.as_ref() else { return err("harness: step before start".into()) };
+        // behaviour of the Disseminator for whatever is handed out during this step
+        let loss = match act["loss"].as_str().unwrap_or("none") {
+            "none" => 0,
+            "odd" => 1,
+            _ => 2,
+        };
+        run.dissem.loss.store(loss, Ordering::SeqCst);
+        match op {
             "tx" => {
                 let len = act["len"].as_u64().unwrap_or(0) as usize;
                 // which transactions are taken into the block is the model's statement (`acc` of the action)
                 self.send_tx(len, act["acc"].as_u64().unwrap_or(0) >= 1);
-                self.collect(0)
+                self.collect()
             }
             "burst" => {
                 let len = act["len"].as_u64().unwrap_or(0) as usize;
@@ -551,11 +687,11 @@ impl Driver for ProducerDriver {
                 for k in 0..n {
                     self.send_tx(len, k < acc);
                 }
-                self.collect(0)
+                self.collect()
             }
             "tick" => {
                 self.rt.block_on(async { tokio::time::sleep(TICK).await });
-                self.collect(0)
+                self.collect()
             }
             "pr" => {
                 let name = act["b"].as_str().unwrap_or("").to_string();
@@ -563,18 +699,11 @@ impl Driver for ProducerDriver {
                 let Some(b) = b else { return err(format!("harness: unknown block {name}")) };
                 if self.loop_entry {
                     // the real pool emits ParentReady(4, b) from certificates
-                    let mut certs = vec![self.notar_cert(&b)];
+                    let mut certs = vec![self.cert(0, b.0, Some(&b.1))];
                     if b.0.inner() + 1 < SLOT {
-                        certs.push(self.skip_cert(Slot::new(SLOT - 1)));
+                        certs.push(self.cert(1, Slot::new(SLOT - 1), None));
                     }
-                    let pool = self.run.as_ref().unwrap().pool.clone();
-                    let res: Result<(), String> = self.rt.block_on(async {
-                        for c in certs {
-                            pool.write().await.add_cert(c).await.map_err(|e| format!("harness: {e:?}"))?;
-                        }
-                        Ok(())
-                    });
-                    if let Err(e) = res {
+                    if let Err(e) = self.add_certs(certs) {
                         return err(e);
                     }
                 } else {
@@ -585,7 +714,16 @@ impl Driver for ProducerDriver {
                         None => return err("harness: ParentReady sent twice".into()),
                     }
                 }
-                self.collect(0)
+                self.collect()
+            }
+            "finalize" => {
+                // a further finalization reaches the pool (fast-finalization certificate of a later slot)
+                let z = (Slot::new(NEXT_SLOT + WINDOW - 1), self.world.hash("Z"));
+                let c = self.cert(2, z.0, Some(&z.1));
+                if let Err(e) = self.add_certs(vec![c]) {
+                    return err(e);
+                }
+                self.collect()
             }
             o => err(format!("harness: unknown op {o}")),
         }
@@ -593,16 +731,24 @@ impl Driver for ProducerDriver {
 
     fn obs(&mut self) -> Value {
         let Some(run) = self.run.as_ref() else {
-            return json!({"n": 0, "sl": [], "done": false, "eff": ""});
+            return json!({"n": 0, "sl": [], "blocks": [], "seen": []});
         };
-        let sl: Vec<Value> = run.shipped.iter().map(|s| json!({"idx": s["idx"], "last": s["last"], "par": s["par"]})).collect();
-        json!({"n": run.shipped.len(), "sl": sl, "done": run.done, "eff": run.eff, "variant": run.variant})
+        let sl: Vec<Value> = run.cur.iter().map(|s| json!({"idx": s["idx"], "last": s["last"], "par": s["par"]})).collect();
+        let blocks: Vec<Value> = run.blocks_done.iter().map(|(w, k, p, _)| json!({"w": w, "k": k, "par": p})).collect();
+        json!({"n": run.cur.len(), "sl": sl, "blocks": blocks, "seen": run.windows_seen})
     }
 
     fn diff_out(&mut self, act: &Value, exp: &Value, got: &Value) -> Vec<String> {
         let mut d = Vec::new();
         if graph::canon(&exp["ship"]) != graph::canon(&got["ship"]) {
-            d.push("ship".to_string());
+            // the number of shreds that left the node is the disseminator's business; everything else the producer's
+            let strip = |v: &Value| -> Value {
+                Value::Array(v.as_array().cloned().unwrap_or_default().into_iter().map(|mut s| {
+                    s.as_object_mut().map(|o| o.remove("sent"));
+                    s
+                }).collect())
+            };
+            d.push(if strip(&exp["ship"]) == strip(&got["ship"]) { "sent".to_string() } else { "ship".to_string() });
         }
         if exp["done"] != got["done"] {
             d.push("done".to_string());
@@ -613,8 +759,15 @@ impl Driver for ProducerDriver {
         if exp["panic"] != got["panic"] {
             d.push("panic".to_string());
         }
+        let has_pos = got["ship"].as_array().is_some_and(|a| !a.is_empty()) || got["done"] == true;
+        if has_pos && d.is_empty() && (exp["w"] != got["w"] || exp["k"] != got["k"]) {
+            d.push("slot".to_string());
+        }
         if got["chk"].as_array().is_some_and(|a| !a.is_empty()) {
             d.push("chk".to_string());
+        }
+        if d.is_empty() && exp["skip"] == true {
+            self.windows_skipped += 1;
         }
         let _ = act;
         if d.is_empty() && exp["panic"].as_str().is_some_and(|p| !p.is_empty()) {
@@ -628,14 +781,17 @@ impl Driver for ProducerDriver {
 
     fn diff_obs(&self, exp: &Value, got: &Value) -> Vec<String> {
         let mut d = Vec::new();
-        if exp["n"] != got["n"] || exp["sl"] != got["sl"] {
+        if exp["blocks"] != got["blocks"] {
+            d.push("blocks".to_string());
+        }
+        // the terminal state of the model keeps the slices of the last block; the harness forgets them on completion
+        if exp["phase"] != "done" && (exp["n"] != got["n"] || exp["sl"] != got["sl"]) {
             d.push("slices".to_string());
         }
-        if (exp["phase"] == "done") != got["done"].as_bool().unwrap_or(false) {
-            d.push("done".to_string());
-        }
-        if exp["eff"] != got["eff"] {
-            d.push("parent".to_string());
+        // nothing is ever produced for a skipped window
+        let seen = got["seen"].as_array().cloned().unwrap_or_default();
+        if exp["skipped"].as_array().is_some_and(|s| s.iter().any(|w| seen.contains(w))) {
+            d.push("skipped".to_string());
         }
         d
     }
@@ -643,9 +799,13 @@ impl Driver for ProducerDriver {
     fn act_label(&self, act: &Value) -> String {
         let op = act["op"].as_str().unwrap_or("?");
         if op == "start" {
-            return format!("start:{}", act["v"].as_str().unwrap_or("?"));
+            return format!("start:{}", act["c"].as_str().unwrap_or("?"));
         }
-        format!("{op}:{}:rsv{}", act["v"].as_str().unwrap_or("?"), act["rsv"].as_u64().unwrap_or(0))
+        let later = if act["w"] == "w1" && act["k"] == 0 { "" } else { ":later" };
+        // a run that started with the previous block AND a later finalization present
+        let c = act["c"].as_str().unwrap_or("");
+        let race = if c.starts_with("blk+") { ":blk+fin" } else { "" };
+        format!("{op}:{}:rsv{}{later}{race}", act["v"].as_str().unwrap_or("?"), act["rsv"].as_u64().unwrap_or(0))
     }
 }
 
@@ -662,8 +822,12 @@ pub fn run(args: &[String], seed: u64) -> anyhow::Result<Value> {
     let g = graph::Graph::load(&path)?;
     let opts = graph::ReplayOpts { sample, seed, max_div, budget_s };
     let mut rep = graph::replay(&g, &mut d, &opts).to_json("producer");
+    d.reset();
     rep["panics_reproduced"] = json!(d.panics_reproduced);
     rep["panic_walk"] = json!(d.panic_walk);
+    rep["failed_sends"] = json!(d.failed_sends);
+    rep["windows_completed"] = json!(d.windows_completed);
+    rep["windows_skipped"] = json!(d.windows_skipped);
     rep["entry"] = json!(if loop_entry { "loop" } else { "direct" });
     Ok(rep)
 }
